@@ -17,10 +17,14 @@ def PREFILTER(o, m):
 RULE = ("the 913 official draft-07 cases first, then generated draft-07 documents (definitions, dependencies in both forms, items in "
         "both forms, additionalItems, $id-as-anchor, $ref with siblings) x 6 instances, roots declaring each supported and several "
         "unsupported $schema values, remote documents with and without their own $schema referenced from the root or from a "
-        "subschema; fan-in: one shared definition of failing-and-swallowed $ref alternatives applied 2..16 times at one instance location. "
+        "subschema; fan-in: one shared definition of failing-and-swallowed $ref alternatives applied 2..16 times at one instance location; "
+        "~3 %: pairs (draft-07 document, the same document plus minContains / maxContains / unevaluatedItems / unevaluatedProperties) "
+        "x 9 instances, which must get equal verdicts (keywords of later drafts are unknown keywords under draft-07). "
         "Non-trivial: >= 2 keywords or a remote document; distinct = distinct operation text")
 TRUSTED = ["regular expressions are a parameter of the model"]
-ASSUMPTIONS = ["draft-07 vocabulary only (2020-12-only keywords are outside the quantifier)"]
+ASSUMPTIONS = ["draft-07 vocabulary, plus minContains / maxContains / unevaluatedItems / unevaluatedProperties as unknown keywords "
+               "(ignored: Spec.vocab, C02.draft7_ignores_later_keywords); the other 2020-12-only keywords ($anchor, $dynamicRef, "
+               "$dynamicAnchor, prefixItems, dependentRequired, dependentSchemas) are outside the quantifier"]
 
 SCHEMA_VALUES = [None, gs.D2020_URI] + gs.D7_URIS + [
     "http://json-schema.org/draft-07/schema", "https://json-schema.org/draft-07/schema", "http://json-schema.org/draft-06/schema#",
@@ -114,8 +118,8 @@ D27_KW = ["minContains", "maxContains", "unevaluatedProperties", "unevaluatedIte
 def later_draft_case(rng):
     """draft-07: keywords that only LATER drafts define (minContains, maxContains, unevaluatedProperties, unevaluatedItems) are
     unknown keywords under draft-07 and must not assert. The pair (document without them, same document with them) must get the same
-    verdicts. Known finding D27: the evaluator applies these four also when the draft is draft-07 (it does skip prefixItems,
-    dependentRequired and dependentSchemas there)."""
+    verdicts. (Finding D27, fixed: the evaluator used to apply these four also when the draft is draft-07; it now tests the draft
+    as it does for prefixItems, dependentRequired and dependentSchemas. Lean: C02.draft7_ignores_later_keywords.)"""
     c = gs.Ctx(rng, "7", depth=rng.choice([1, 2]))
     doc = gs.gen_document(c, rng.choice(gs.D7_URIS))
     if not isinstance(doc, Obj):
@@ -201,8 +205,8 @@ def gen(rng, tier, n):
     while len(ops) < n:
         r = rng.random()
         if r < 0.2:
-            if rng.random() < 0.1:
-                ops.append(later_draft_case(rng))      # known finding D27: drawn rarely
+            if rng.random() < 0.15:
+                ops.append(later_draft_case(rng))      # keywords of later drafts under draft-07 (finding D27, fixed): ~3 %
                 continue
             ops.append(remote_case(rng))
             continue
@@ -250,8 +254,8 @@ def judge(o, go, m):
                 return st, side + ": " + d
         ga, gb = go.get("a") or {}, go.get("b") or {}
         if (ga.get("outcome"), ga.get("verdicts")) != (gb.get("outcome"), gb.get("verdicts")):
-            # the real package does what the model (= the code) does: the listed finding, nothing else
-            return "known:D27", "a keyword of a later draft (%s) asserts under draft-07: %r vs %r" % (
+            # a draft-07 validator ignores the keyword: the two documents must get the same verdicts (finding D27, fixed)
+            return "violation:later-draft-keyword", "a keyword of a later draft (%s) asserts under draft-07: %r vs %r" % (
                 (o.get("meta") or {}).get("later"), ga.get("verdicts"), gb.get("verdicts"))
         return "agree", ""
     return vjudge.judge_validate(o, go, m)
